@@ -13,13 +13,15 @@ import os
 from collections import Counter
 
 from dsim import HarnessError, Violation
-from dsim.net import SimClock, SimNet, SimSocket, SimSocketModule
+from dsim.net import SimClock, SimNet, SimSocket, SimSocketModule, WouldHangForever
 from dsim.rng import stream, pick_weighted, log_uniform
 from dsim.trace import EventLog, digest_int
 
 PROP = "C19"
 UNKNOWN = "Z"
-NAMES = ["A", "B", "C", "D"]
+NAMES = ["A", "AA", "AB", "B"]      # shared prefixes on purpose (keys built by concatenation would collide)
+HUB_IP = "127.0.0.1"
+PEER_IP = "127.0.0.9"               # datagrams from peers come from another address than the hub's own
 
 _mods = {}
 
@@ -58,6 +60,12 @@ def _make_mem_class():
             return was
 
         def sendData(self, data):
+            if not self.open:
+                # like UDPObject: a closed port drops what it is given (so a hub that skips closed destinations
+                # itself is indistinguishable from one that hands them the message)
+                self.last_tx_success = False
+                self._run.faults["mem_send_closed"] += 1
+                return False
             self._run.on_mem_send(self._hub, self.name, data)
             if self._link is not None and isinstance(data, str):
                 tgt = self._run.hubs[self._hub].comms.endpoints.get(self._link)
@@ -83,6 +91,8 @@ def _make_mem_class():
             else:
                 v = self.inbox.pop(0)
             self.last_rx_success = v is not None
+            if v is not None:
+                self.last_rx_data = v
             self._run.on_recv(self._hub, self.name, pos, v)
             return v
 
@@ -179,22 +189,21 @@ class _Hub:
 
 
 class _Ctx:
-    __slots__ = ("recvs", "deliv", "srcs", "pending_src", "src_deliv")
+    __slots__ = ("recvs", "deliv", "srcs", "src_deliv", "lost", "mangled", "src_targets", "src_hid", "src_seen")
 
     def __init__(self):
         self.recvs = []      # (hub, ep, pos, value or None)
         self.deliv = []      # ("mem"|"wire"|"sink", hub or -1, dest, value)   fan-out deliveries
         self.srcs = []       # (hid, value)
-        self.pending_src = set()   # source values produced and not yet handed to an endpoint
-        self.src_deliv = []  # deliveries attributed to a source call (the first hand-over of its value)
+        self.src_deliv = []  # deliveries attributed to a source call
+        self.lost = []       # (hub, endpoint, [datagrams read from the socket and then dropped inside the endpoint])
+        self.mangled = []    # (hub, endpoint, read from the socket, handed to the hub)
+        self.src_targets = {}    # hid -> set of (hub, endpoint) the source is registered on (model, at step start)
+        self.src_hid = {}        # value produced by a source during this call -> hid
+        self.src_seen = set()    # (hub, endpoint, value) already booked as a source delivery
 
     def add_delivery(self, d):
-        val = d[3][0] if d[0] == "wire" else d[3]
-        if d[0] != "sink" and val in self.pending_src:
-            self.pending_src.discard(val)
-            self.src_deliv.append(d)
-        else:
-            self.deliv.append(d)
+        self.deliv.append(d)
 
 
 # --------------------------------------------------------------------------- executor
@@ -205,13 +214,13 @@ class RouterRun:
         self.trace = trace
         cfg = trace["config"]
         self.log = EventLog(keep=keep_log)
-        self.clock = SimClock()
-        self.net = SimNet(self.clock, self.log, cfg.get("inbox_cap", 64))
+        self._make_net(cfg)
         self.net.force_nodata = frozenset(trace.get("nodata", ()))
         self.net.hook_recv = self._sock_recv
         self.net.hook_send = self._sock_send
-        self.sockmod = SimSocketModule(self.net)
         m["udp"].socket = self.sockmod
+        self.pool = {}            # (hub, endpoint) -> datagrams read from the socket and not yet handed to the hub
+        self._sock_dry = set()
         self.faults = Counter()
         self.probes = Counter()
         self.states = set()
@@ -228,48 +237,112 @@ class RouterRun:
             hub.comms = m["core"].Comms()
             for e in hc["eps"]:
                 if e["kind"] == "udp":
-                    hub.comms.newComPort(e["n"], "UDP", "127.0.0.1", e["rx"], e["tx"], e["tau"])
+                    hub.comms.newComPort(e["n"], "UDP", HUB_IP, e["rx"], e["tx"], e["tau"])
                     obj = hub.comms.endpoints[e["n"]]
                     if "buf" in e:
                         obj.setBufferLen(e["buf"])
+                    self._observe_endpoint(obj, hi, e["n"])
                 else:
                     hub.comms.endpoints[e["n"]] = Mem(self, hi, e["n"], e.get("link"))
                 hub.kinds[e["n"]] = e
             hub.model = HubModel([e["n"] for e in hc["eps"]])
             self.hubs.append(hub)
         self.peers = {}
+        self.peer_tx = {}
         for p in cfg.get("peers", []):
-            s = SimSocket(self.net, "peer:" + p["n"])
+            s = self._make_peer_socket("peer:" + p["n"])
             s.settimeout(0.001)
-            s.bind(("127.0.0.1", p["port"]))
+            s.bind((HUB_IP, p["port"]))
             self.peers[p["n"]] = s
         shapes_k = cfg.get("sink_shapes", ["func", "method", "partial"])
         shapes_s = cfg.get("source_shapes", ["func", "method", "partial"])
         self.sink_recs = [_Rec(self, "sink", i, shapes_k[i % len(shapes_k)]) for i in range(3)]
         self.source_recs = [_Rec(self, "source", i, shapes_s[i % len(shapes_s)]) for i in range(3)]
 
+    # ---- backend (overridden by the real-socket fidelity run) ---------------------
+    def _make_net(self, cfg):
+        self.clock = SimClock()
+        self.net = SimNet(self.clock, self.log, cfg.get("inbox_cap", 64))
+        self.sockmod = SimSocketModule(self.net)
+
+    def _make_peer_socket(self, label):
+        return SimSocket(self.net, label)
+
+    def _peer_sender(self, name):
+        """The socket a peer transmits from: another source address than the hub's (PEER_IP)."""
+        s = self.peer_tx.get(name)
+        if s is None:
+            s = self._make_peer_socket("peertx:%s" % name)
+            if isinstance(s, SimSocket):
+                s.addr = (PEER_IP, self.net.ephemeral())
+                self.net.bound[s.addr] = s
+            self.peer_tx[name] = s
+        return s
+
     # ---- seams ---------------------------------------------------------------
+    def _observe_endpoint(self, obj, hi, name):
+        """Endpoint-level receive seam for real endpoints: a message is *received on the endpoint* when the endpoint's
+        getData hands it out (an endpoint may buffer what it read from its socket)."""
+        real = obj.getData
+        run = self
+
+        def getData(*a, **k):
+            v = real(*a, **k)
+            run.on_ep_return(hi, name, v)
+            return v
+        obj.getData = getData
+
     def _owner(self, sock):
         for hi, hub in enumerate(self.hubs):
             for n, obj in hub.comms.endpoints.items():
                 if getattr(obj, "comm_handle", None) is sock:
                     return hi, n
+        for hi, hub in enumerate(self.hubs):      # an endpoint may keep more than one socket (separate tx handle ...)
+            for n, obj in hub.comms.endpoints.items():
+                try:
+                    if any(v is sock for v in vars(obj).values()):
+                        return hi, n
+                except TypeError:
+                    pass
         return None
 
     def _sock_recv(self, sock, pos, data):
         own = self._owner(sock)
         if own is None:
             return
-        v = None if data is None else data.decode("utf-8", "replace")
         if data is None:
             self.faults["udp_timeout"] += 1
-        self.on_recv(own[0], own[1], pos, v)
+            self.log.add("sock.nodata", own[0], own[1], pos)
+            self._sock_dry.add(own)       # this endpoint looked at its socket and found nothing
+            return
+        v = data.decode("utf-8", "replace")
+        self.pool.setdefault(own, []).append(v)
+        self.log.add("sock.read", own[0], own[1], pos, v)
+
+    def on_ep_return(self, hub, name, v):
+        pend = self.pool.get((hub, name))
+        dry = (hub, name) in self._sock_dry
+        self._sock_dry.discard((hub, name))
+        if v is not None:
+            if pend and v in pend:
+                pend.remove(v)
+            elif pend:
+                got = pend.pop(0)    # handed out in another form than it was read from the socket
+                self.ctx.mangled.append((hub, name, got, v))
+            else:
+                self.probes["endpoint_returned_value_it_never_read"] += 1
+        elif pend and dry:
+            # the endpoint looked at its socket, found nothing more, and says "no data" -- while datagrams it has read
+            # earlier were never handed out (an endpoint that buffers hands them out before it reports "no data")
+            self.ctx.lost.append((hub, name, list(pend)))
+            del pend[:]
+        self.on_recv(hub, name, -1, v)
 
     def _sock_send(self, sock, data, addr):
         own = self._owner(sock)
         if own is None:
             return
-        self.ctx.add_delivery(("wire", own[0], own[1], (data.decode("utf-8", "replace"), addr[1])))
+        self.ctx.add_delivery(("wire", own[0], own[1], (data.decode("utf-8", "replace"), (addr[0], addr[1]))))
 
     def on_recv(self, hub, name, pos, v):
         self.log.add("recv", hub, name, pos, v)
@@ -292,7 +365,7 @@ class RouterRun:
     def on_source(self, hid, v):
         self.log.add("source", hid, v)
         self.ctx.srcs.append((hid, v))
-        self.ctx.pending_src.add(v)
+        self.ctx.src_hid[v] = hid
 
     # ---- helpers -------------------------------------------------------------
     def _handle(self, recs, hid):
@@ -305,10 +378,12 @@ class RouterRun:
         out = []
         for d in hub.model.fwd.get(name, ()):
             e = hub.kinds[d]
+            if not opened[(hub_i, d)]:
+                continue            # a closed destination drops the message (UDPObject and the doubles alike)
             if e["kind"] == "mem":
                 out.append(("mem", hub_i, d, v))
-            elif opened[(hub_i, d)]:
-                out.append(("wire", hub_i, d, (v, e["tx"])))
+            else:
+                out.append(("wire", hub_i, d, (v, (HUB_IP, e["tx"]))))
         for hid in hub.model.sinks.get(name, ()):
             out.append(("sink", -1, hid, v))
         return out
@@ -366,6 +441,9 @@ class RouterRun:
         md = hub.model
         self.net.set_fates(st.get("fates"))
         self.ctx = ctx = _Ctx()
+        for n_, hids in md.sources.items():
+            for hid_ in hids:
+                ctx.src_targets.setdefault(hid_, set()).add((hi, n_))
         self.log.add("step", self.steps_done, op)
         opened = self._open_flags()
         self._ready = self._ready_inputs(hi, opened) if op == "spin" else ()
@@ -406,10 +484,8 @@ class RouterRun:
             elif op == "closeall":
                 ret = comms.closeAll()
             elif op == "peer_send":
-                p = self.peers.get(st.get("p"))
-                if p is None:
-                    p = SimSocket(self.net, "peer:anon")
-                p.sendto(st["tok"].encode("utf-8"), ("127.0.0.1", st["port"]))
+                p = self._peer_sender(st.get("p") or "anon")
+                p.sendto(st["tok"].encode("utf-8"), (HUB_IP, st["port"]))
                 self.probes["peer_send"] += 1
             elif op == "peer_drain":
                 p = self.peers.get(st.get("p"))
@@ -423,8 +499,9 @@ class RouterRun:
                 self.clock.advance(float(st["dt"]))
             else:
                 raise HarnessError("unknown op %r" % (op,))
-        except HarnessError:
-            raise
+        except WouldHangForever as e:
+            raise Violation("R-nodata-hang", "%s never returns: %s (a receive that yields no data must return)" % (op, e),
+                            {"op": op})
         except Exception as e:      # noqa -- the system under test raised
             exc = e
         self.log.add("ret", repr(ret) if not isinstance(ret, (bool, type(None), str)) else ret,
@@ -486,6 +563,17 @@ class RouterRun:
                                 "still open: a port the caller closed keeps receiving and delivering" if not md.open[n]
                                 else "still closed: its registered destinations and sinks never see a message"), {"op": op})
                     self.probes["open_close_state_checked"] += 1
+                # whatever the call did: an endpoint that says it is open must actually listen on its receive port
+                for n in md.known:
+                    e = hub.kinds[n]
+                    obj = hub.comms.endpoints[n]
+                    if e["kind"] == "udp" and obj.open and hasattr(self.net, "bound"):
+                        sock = self.net.bound.get((HUB_IP, e["rx"]))
+                        if sock is None or self._owner(sock) != (hi, n):
+                            raise Violation("R-openclose", "after %s endpoint %s is marked open but nothing of it listens on its "
+                                            "receive port %d: every datagram sent to it is lost%s" % (
+                                                op, n, e["rx"], ("; the call raised %s" % type(exc).__name__) if exc else ""),
+                                            {"op": op, "exception": type(exc).__name__ if exc else None})
             hub_deliv = [d for d in ctx.deliv]
             if op in ("open", "close", "openall", "closeall", "idle", "inject", "peer_drain") and hub_deliv:
                 raise Violation("R-fanout", "%s delivered %r" % (op, hub_deliv[:3]), {"op": op})
@@ -502,27 +590,53 @@ class RouterRun:
                 self.n_nontrivial += 1
             for o in outs:
                 pred[o] += 1
-        obs = Counter(ctx.deliv)
-        obs_src = Counter()
-        for d in ctx.src_deliv:
-            obs_src[(d[0], d[1], d[2], d[3][0] if d[0] == "wire" else d[3])] += 1
+        obs_all = Counter(ctx.deliv)
         if op == "send":
             n = st["n"]
             if n in md.known:
                 e = hub.kinds[n]
-                if e["kind"] == "mem":
+                if not opened[(hi, n)]:
+                    pass
+                elif e["kind"] == "mem":
                     pred[("mem", hi, n, st["tok"])] += 1
-                elif opened[(hi, n)]:
-                    pred[("wire", hi, n, (st["tok"], e["tx"]))] += 1
+                else:
+                    pred[("wire", hi, n, (st["tok"], (HUB_IP, e["tx"])))] += 1
 
+        if ctx.mangled:
+            h_, n_, got, gave = ctx.mangled[0]
+            raise Violation("R-fanout", "endpoint %s read %r from its socket but handed %r to the hub: what is delivered is not "
+                            "the message that was received" % (n_, got, gave), {"op": op})
+        if ctx.lost:
+            h_, n_, vals = ctx.lost[0]
+            raise Violation("R-fanout", "endpoint %s read %r from its socket and never handed it to the hub (a later receive "
+                            "yielded no data while it was pending): the message is delivered to nobody" % (n_, vals[:3]),
+                            {"op": op, "lost": len(vals)})
         last_nodata = bool(ctx.recvs) and ctx.recvs[-1][3] is None
         no_recv_data = not data_recvs
         sig = {"op": op, "exception": type(exc).__name__ if exc else None}
 
+        # What is left after taking the predicted fan-out out of the observed deliveries must be the source values of a
+        # spin: a value produced by a source during this call, handed to an endpoint that source is registered on,
+        # at most once per endpoint (one value may be shared by the endpoints of one handle; which of two equal
+        # deliveries "is" the source one and which the forwarded copy does not matter for the counts).
+        missing = pred - obs_all
+        rest = obs_all - pred
+        src_rest = Counter()
+        extra = Counter()
+        for d, c in rest.items():
+            val = d[3][0] if d[0] == "wire" else d[3]
+            hid = ctx.src_hid.get(val) if (op == "spin" and d[0] != "sink") else None
+            if hid is not None and (d[1], d[2]) in ctx.src_targets.get(hid, ()):
+                src_rest[d] += 1
+                if c > 1:
+                    extra[d] += c - 1
+            else:
+                extra[d] += c
+        obs = pred - missing + extra       # "observed" as far as the fan-out clauses are concerned
+        ctx.src_deliv = list(src_rest.elements())
+
         # -- no-data clause: a receive attempt that yielded nothing must deliver nothing / raise nothing
-        if obs != pred:
-            extra = obs - pred
-            missing = pred - obs
+        if missing or extra:
             none_extra = [d for d in extra if (d[3][0] if d[0] == "wire" else d[3]) is None]
             if none_extra or (no_recv_data and extra and op != "send"):
                 raise Violation("R-nodata-deliver",
@@ -556,20 +670,24 @@ class RouterRun:
             for n in md.known:
                 for hid in md.sources.get(n, ()):
                     pred_calls[hid] += k
-                    e = hub.kinds[n]
-                    if e["kind"] == "mem":
-                        pred_src[("mem", hi, n, hid)] += k
-                    elif opened[(hi, n)]:
-                        pred_src[("wire", hi, n, hid)] += k
+                    if opened[(hi, n)]:
+                        pred_src[("mem" if hub.kinds[n]["kind"] == "mem" else "wire", hi, n, hid)] += k
             obs_calls = Counter(h for h, _ in ctx.srcs)
-            val_hid = dict((v, h) for h, v in ctx.srcs)
             obs_by = Counter()
-            for (kind, h, n, val), c in obs_src.items():
-                if c != 1:
-                    raise Violation("R-spin-source", "source value %r sent %d times to %s" % (val, c, n), sig)
-                obs_by[(kind, h, n, val_hid[val])] += 1
+            for d in ctx.src_deliv:
+                val = d[3][0] if d[0] == "wire" else d[3]
+                if d[0] == "wire" and d[3][1] != (HUB_IP, hub.kinds[d[2]]["tx"]):
+                    raise Violation("R-spin-source", "source value %r for endpoint %s was sent to %r instead of %r" % (
+                        val, d[2], d[3][1], (HUB_IP, hub.kinds[d[2]]["tx"])), sig)
+                obs_by[(d[0], d[1], d[2], ctx.src_hid[val])] += 1
             if exc is None or not last_nodata:
-                if obs_calls != pred_calls:
+                # each source at least once per iteration and at most once per registration per iteration (one value
+                # may be shared by the endpoints a handle is registered on); every registration gets exactly one value
+                # per iteration
+                regs = Counter(hid for n in md.known for hid in md.sources.get(n, ()))
+                bad = [h for h in set(list(obs_calls) + list(regs))
+                       if not (k * (1 if regs[h] else 0) <= obs_calls[h] <= k * regs[h])]
+                if bad:
                     raise Violation("R-spin-source", "spin(%d): sources called %r, expected %r%s" % (
                         k, dict(obs_calls), dict(pred_calls),
                         ("; raised %s: %s" % (type(exc).__name__, exc)) if exc else ""), sig)
@@ -592,7 +710,7 @@ class RouterRun:
                 self.probes["spin_with_sources"] += 1
                 if any(md.fwd.get(n) or md.sinks.get(n) for n in md.known if md.sources.get(n)):
                     self.probes["spin_sources_and_rules_same_endpoint"] += 1
-        elif obs_src or ctx.srcs:
+        elif ctx.srcs:
             raise Violation("R-spin-source", "%s called sources %r" % (op, ctx.srcs[:3]), sig)
 
         self._probe_traffic(st, hi, ctx, opened, data_recvs, nodata_recvs)
@@ -788,6 +906,7 @@ def gen_trace(seed):
     tok = [0]
 
     p_repeat = rc.choice([0.0, 0.0, 0.08, 0.2])
+    p_odd = rc.choice([0.0, 0.0, 0.1, 0.3])
 
     def newtok():
         # mostly unique payloads; sometimes the *same* payload again (two distinct messages with equal content
@@ -795,7 +914,11 @@ def gen_trace(seed):
         if tok[0] and ro.random() < p_repeat:
             return "m%d" % ro.randint(max(1, tok[0] - 2), tok[0])
         tok[0] += 1
-        return "m%d" % tok[0]
+        t = "m%d" % tok[0]
+        if ro.random() < p_odd:
+            # payloads a careless strip()/split()/re-encode would damage
+            t = ro.choice([" " + t, t + " ", t + "\n", "\t" + t, t + "\u00e9" if not small_buf else t + "_", t + "x" * 300, t + " " + t])
+        return t
 
     def pick_name(h):
         if ro.random() < p_unknown:
